@@ -27,7 +27,7 @@ class Module:
             self.tree = ast.parse(source, filename=relpath)
         except SyntaxError as exc:  # pragma: no cover
             raise AnalysisError(f'parse error in {relpath}: {exc}')
-        self.tree = unroll_literal_loops(self.tree)
+        self.tree = fold_dynamic_names(unroll_literal_loops(self.tree))
         for node in ast.walk(self.tree):
             for child in ast.iter_child_nodes(node):
                 child._parent = node
@@ -39,11 +39,89 @@ class Module:
         return f'<Module {self.name}>'
 
 
+def _constant_tables(tree):
+    """Module-level and class-level names bound once to a literal tuple/list of constants (or of such tuples)."""
+    def lit(v):
+        if isinstance(v, ast.Constant) and isinstance(v.value, (str, int)):
+            return v.value
+        if isinstance(v, (ast.Tuple, ast.List)) and v.elts and len(v.elts) <= 8:
+            items = [lit(e) for e in v.elts]
+            if all(i is not None for i in items):
+                return tuple(items)
+        return None
+
+    tables = {}
+    scopes = [('', tree.body)] + [(c.name + '.', c.body) for c in tree.body if isinstance(c, ast.ClassDef)]
+    for prefix, body in scopes:
+        counts = {}
+        for st in body:
+            if isinstance(st, ast.Assign) and len(st.targets) == 1 and isinstance(st.targets[0], ast.Name):
+                counts[st.targets[0].id] = counts.get(st.targets[0].id, 0) + 1
+        for st in body:
+            if isinstance(st, ast.Assign) and len(st.targets) == 1 and isinstance(st.targets[0], ast.Name) and counts[st.targets[0].id] == 1:
+                v = lit(st.value)
+                if isinstance(v, tuple):
+                    tables[prefix + st.targets[0].id] = v
+    # a table that is rebound or mutated anywhere is not a constant
+    for n in ast.walk(tree):
+        if isinstance(n, ast.Attribute) and isinstance(n.ctx, (ast.Store, ast.Del)):
+            for k in [k for k in tables if k.endswith('.' + n.attr)]:
+                del tables[k]
+    return tables
+
+
+def fold_dynamic_names(tree):
+    """Normalisation of reflective idioms with constant names (behaviour-preserving, after loop unrolling):
+    f'..{CONST}..' -> constant; getattr(o, 'a') -> o.a; setattr(o, 'a', v) -> o.a = v; vars(o) -> o.__dict__;
+    dict(a=x, b=y) -> {'a': x, 'b': y}."""
+    class Fold(ast.NodeTransformer):
+        def visit_JoinedStr(self, node):
+            self.generic_visit(node)
+            parts = []
+            for v in node.values:
+                if isinstance(v, ast.Constant) and isinstance(v.value, str):
+                    parts.append(v.value)
+                elif isinstance(v, ast.FormattedValue) and v.conversion == -1 and v.format_spec is None \
+                        and isinstance(v.value, ast.Constant) and isinstance(v.value.value, (str, int)):
+                    parts.append(str(v.value.value))
+                else:
+                    return node
+            return ast.copy_location(ast.Constant(value=''.join(parts)), node)
+
+        def visit_Call(self, node):
+            self.generic_visit(node)
+            f = node.func
+            if isinstance(f, ast.Name) and not node.keywords:
+                a = node.args
+                if f.id == 'getattr' and len(a) == 2 and isinstance(a[1], ast.Constant) and isinstance(a[1].value, str) and a[1].value.isidentifier():
+                    return ast.copy_location(ast.Attribute(value=a[0], attr=a[1].value, ctx=ast.Load()), node)
+                if f.id == 'vars' and len(a) == 1:
+                    return ast.copy_location(ast.Attribute(value=a[0], attr='__dict__', ctx=ast.Load()), node)
+            if isinstance(f, ast.Name) and f.id == 'dict' and not node.args and node.keywords and all(k.arg for k in node.keywords):
+                return ast.copy_location(ast.Dict(keys=[ast.Constant(value=k.arg) for k in node.keywords], values=[k.value for k in node.keywords]), node)
+            return node
+
+        def visit_Expr(self, node):
+            self.generic_visit(node)
+            c = node.value
+            if isinstance(c, ast.Call) and isinstance(c.func, ast.Name) and c.func.id == 'setattr' and len(c.args) == 3 and not c.keywords \
+                    and isinstance(c.args[1], ast.Constant) and isinstance(c.args[1].value, str) and c.args[1].value.isidentifier():
+                tgt = ast.Attribute(value=c.args[0], attr=c.args[1].value, ctx=ast.Store())
+                return ast.copy_location(ast.Assign(targets=[tgt], value=c.args[2]), node)
+            return node
+
+    tree = Fold().visit(tree)
+    ast.fix_missing_locations(tree)
+    return tree
+
+
 def unroll_literal_loops(tree):
     """Normalisation: `for name in ('a', 'b'): body` (a literal tuple/list of constants, possibly through a
-    single-assignment local, no break/continue/else) becomes the body repeated with the constant substituted.
+    single-assignment local or a module/class-level constant table, no break/continue/else) becomes the body repeated
+    with the constant substituted; `for a, b in (('x', 'y'), ...)` likewise.
     Behaviour-preserving; lets attribute-level rules see `self.__dict__.pop(name)` / `setattr(obj, key, ...)`."""
     import copy
+    tables = _constant_tables(tree)
 
     class Subst(ast.NodeTransformer):
         def __init__(self, name, const):
@@ -56,10 +134,20 @@ def unroll_literal_loops(tree):
                 return ast.copy_location(ast.Constant(value=self.const), n)
             return n
 
-    def literal_of(fnnode, it):
+    def literal_of(fnnode, it, cls=None):
         if isinstance(it, (ast.Tuple, ast.List)) and it.elts and len(it.elts) <= 8 and all(
                 isinstance(e, ast.Constant) and isinstance(e.value, (str, int)) for e in it.elts):
             return [e.value for e in it.elts]
+        if isinstance(it, (ast.Tuple, ast.List)) and it.elts and len(it.elts) <= 8 and all(
+                isinstance(e, (ast.Tuple, ast.List)) and e.elts and all(isinstance(x, ast.Constant) and isinstance(x.value, (str, int)) for x in e.elts)
+                for e in it.elts):
+            return [tuple(x.value for x in e.elts) for e in it.elts]
+        if isinstance(it, ast.Name) and it.id in tables and (fnnode is None or not any(
+                isinstance(n, ast.Name) and n.id == it.id and isinstance(n.ctx, ast.Store) for n in ast.walk(fnnode))):
+            return list(tables[it.id])
+        if isinstance(it, ast.Attribute) and isinstance(it.value, ast.Name) and it.value.id in ('self', 'cls') and cls is not None \
+                and cls + '.' + it.attr in tables:
+            return list(tables[cls + '.' + it.attr])
         if isinstance(it, (ast.Tuple, ast.List)) and it.elts and len(it.elts) <= 4 and all(isinstance(e, ast.Name) for e in it.elts):
             return [('name', e.id) for e in it.elts]
         if isinstance(it, ast.Name) and fnnode is not None:
@@ -72,9 +160,25 @@ def unroll_literal_loops(tree):
                 return literal_of(None, defs[0].value)
         return None
 
+    class SubstMany(ast.NodeTransformer):
+        def __init__(self, mapping):
+            self.mapping = mapping
+
+        def visit_Name(self, n):
+            if n.id in self.mapping and isinstance(n.ctx, ast.Load):
+                return ast.copy_location(ast.Constant(value=self.mapping[n.id]), n)
+            return n
+
     class Unroll(ast.NodeTransformer):
         def __init__(self):
             self.fn = None
+            self.cls = None
+
+        def visit_ClassDef(self, node):
+            old, self.cls = self.cls, node.name
+            self.generic_visit(node)
+            self.cls = old
+            return node
 
         def visit_FunctionDef(self, node):
             old, self.fn = self.fn, node
@@ -86,14 +190,25 @@ def unroll_literal_loops(tree):
 
         def visit_For(self, node):
             self.generic_visit(node)
-            if node.orelse or not isinstance(node.target, ast.Name):
-                return node
             if any(isinstance(x, (ast.Break, ast.Continue)) for b in node.body for x in ast.walk(b)):
+                return node
+            if not node.orelse and isinstance(node.target, ast.Tuple) and all(isinstance(e, ast.Name) for e in node.target.elts):
+                names = [e.id for e in node.target.elts]
+                vals = literal_of(self.fn, node.iter, self.cls)
+                stored = any(isinstance(x, ast.Name) and x.id in names and isinstance(x.ctx, ast.Store) for b in node.body for x in ast.walk(b))
+                if vals and not stored and all(isinstance(v, tuple) and v[:1] != ('name',) and len(v) == len(names) for v in vals):
+                    out = []
+                    for v in vals:
+                        for b in node.body:
+                            out.append(SubstMany(dict(zip(names, v))).visit(copy.deepcopy(b)))
+                    return out
+                return node
+            if node.orelse or not isinstance(node.target, ast.Name):
                 return node
             if any(isinstance(x, ast.Name) and x.id == node.target.id and isinstance(x.ctx, ast.Store) for b in node.body for x in ast.walk(b)):
                 return node
-            vals = literal_of(self.fn, node.iter)
-            if vals is None:
+            vals = literal_of(self.fn, node.iter, self.cls)
+            if vals is None or any(isinstance(v, tuple) and v[:1] != ('name',) for v in vals):
                 return node
             names = {v[1] for v in vals if isinstance(v, tuple)}
             if names and any(isinstance(x, ast.Name) and x.id in names and isinstance(x.ctx, ast.Store) for b in node.body for x in ast.walk(b)):
